@@ -168,6 +168,30 @@ class C03(L1Prop):
             ops += [f"race 1 {rng.choice([1, 2, 2, 3])} {rng.choice([60, 120, 200])}", "dumpall"]
             out.append(Case(f"c03-race-{j}", ops, {"inst": True, "race": True, "group": "race", "sched": [], "cmode": "multi"}))
             k += 1
+        # uploads for ONE client and ONE parent whose body chunks arrive alternately at one worker: exactly
+        # one is accepted, the others are told the new latest version, and what is stored under the new id
+        # is the body of the accepted upload and nothing else
+        for j in range(sizes(tier, 8, 60)):
+            ops = ["http POST av hyph=nil hyph=1 history b:1"]
+            def ch():
+                return "chunks:" + ",".join(str(rng.randint(1, 60)) for _ in range(rng.randint(2, 5)))
+            for rnd in range(rng.randint(1, 3)):
+                ops.append("ileave " + " || ".join(f"http POST av hyph=latest:1 hyph=1 history {ch()}" for _ in range(rng.choice([2, 2, 3]))))
+                ops += ["http GET gcv hyph=anc:1:1 hyph=1 absent e", "http POST av hyph=latest:1 hyph=1 history b:2"]
+            ops += ["walk 1"]
+            out.append(Case(f"c03-ileave-{j}", ops, {"inst": True, "ileave": True, "http": True, "group": "ileave", "sched": [], "cmode": "shared"}, mode="http"))
+            k += 1
+        # real-time order: request 0 is stopped right after its (read) transaction has ended, request 1 runs from
+        # start to answer, and only then is request 2 sent: whatever request 2 is told must take request 1 into
+        # account (it may not be handed something request 0 read earlier)
+        for (a, b, c) in [("GCVlatest", "AVlatest", "GCVlatest"), ("GS", "ASlatest", "GS"), ("GCVlatest", "AVlatest", "AVlatest"),
+                          ("GCVnew", "AVnew", "GCVnew"), ("GSnew", "AVnew", "GSnew"), ("AVstale", "AVlatest", "AVstale")]:
+            for s in (["0<", "1", "2", "0>"], ["0<", "1", "0>", "2"], ["0<", "1", "1", "1", "2", "0>"], ["0", "1", "2"], ["1", "0<", "2", "0>"]):
+                for mode in ("shared", "multi"):
+                    reqs = [KINDS[a].format(d="41"), KINDS[b].format(d="42"), KINDS[c].format(d="43")]
+                    ops = list(PREFIX) + ["conc " + mode + " " + " || ".join(reqs) + " ## " + " ".join(s), "dump 1", "dump 5"]
+                    out.append(Case(f"c03-{k}", ops, {"reqs": reqs, "group": f"{a}+{b}+{c}", "sched": s, "cmode": mode}, mode="http"))
+                    k += 1
         triples = [("AVnew", "ASnewP", "AVnewP"), ("AVnew", "AVnew", "GCVnew"), ("AVnewP", "ASnewP", "GSnew"),
                    ("AVlatest", "AVlatest", "ASlatest"), ("AVlatest", "GCVlatest", "GS"), ("AVnew", "ASnewNil", "AVnew")]
         nsch = sizes(tier, 12, 300)
@@ -183,7 +207,7 @@ class C03(L1Prop):
     def normalize(self, trace):
         # the scheduler's notes (blocked / LOCK-VIOLATION / HANG) are read by the oracle; the model
         # has nothing to say about them
-        race = any(o.startswith("race ") for (o, ri, rm) in trace)
+        race = any(o.startswith(("race ", "mark ileave")) for (o, ri, rm) in trace)
         return [(o, ri, ri if (o.startswith("csched") or race) else rm) for (o, ri, rm) in trace]
     def relevant(self, i, trace):
         # correspondence: the extracted model runs the SAME transaction schedule (ConcRig.rig_results,
@@ -198,6 +222,26 @@ class C03(L1Prop):
         return None, 0
     def oracle(self, case, trace, backend):
         fails = []
+        if case.meta.get("ileave"):
+            from .props_http import C06
+            fails = list(C06().oracle(case, trace, backend))
+            i = 0
+            while i < len(trace):
+                o = trace[i][0]
+                if o.startswith("mark ileave"):
+                    n = int(o.split()[2])
+                    grp = [(HOp(x[0]), HResp(x[1])) for x in trace[i + 1:i + 1 + n]]
+                    oks = [r for (h, r) in grp if r.status == 200]
+                    if len(oks) != 1:
+                        fails.append(f"{len(oks)} of {n} overlapping uploads on one parent were accepted: statuses {[r.status for (h, r) in grp]}")
+                    for (h, r) in grp:
+                        if r.status not in (200, 409):
+                            fails.append(f"overlapping upload answered {r.status}")
+                        if r.status == 409 and oks and r.xp != oks[0].xv:
+                            fails.append(f"a refused overlapping upload was told the latest version is {r.xp}; the accepted one created {oks[0].xv}")
+                    i += n
+                i += 1
+            return [f + f" (uploads for one client interleaved chunk by chunk on one worker, {backend})" for f in fails]
         if case.meta.get("race"):
             for (o, ri, rm) in trace:
                 if o.startswith("race "):
@@ -267,6 +311,14 @@ class C03(L1Prop):
         if i is None:
             return []
         got_resps, got_state, reqs = block_sig(trace, i + 1, n)
+        # real-time order: `RT:a<b` = request a had been answered before request b was sent; only
+        # one-at-a-time orders that keep every such pair are candidates
+        notes = ""
+        for (o, ri, rm) in trace[i:]:
+            if o.startswith("csched"):
+                notes = ri
+        rt = [tuple(int(x) for x in m.groups()) for m in re.finditer(r"RT:(\d+)<(\d+)", notes)]
+        derived = [(perm, st) for perm, st in derived if all(perm.index(a) < perm.index(b) for a, b in rt if a in perm and b in perm)]
         cands = []
         for perm, st in derived:
             start = len(case.meta.get("prefix", PREFIX))
@@ -295,7 +347,7 @@ class C03(L1Prop):
                     if strip(state) == strip(got_state):
                         case.meta["finding"] = "as_in_creation_window"
         msg = (f"{backend}/{case.meta['cmode']}: requests {case.meta['group']} under schedule {case.meta['sched']}: responses {got_resps} "
-               f"and final state {got_state} equal no one-at-a-time execution; those give " +
+               f"and final state {got_state} equal no one-at-a-time execution" + (f" that respects the real-time order {rt}" if rt else "") + "; those give " +
                "; ".join(f"{p}: {r} / {s}" for p, r, s in cands[:6]))
         return [msg]
     def signature(self, case, pr):
@@ -306,7 +358,7 @@ class C03(L1Prop):
     def nontrivial(self, case, trace):
         if case.meta.get("inst"):
             return True
-        s = [x for x in case.meta["sched"] if x.isdigit()]
+        s = [x.rstrip("<>") for x in case.meta["sched"] if x.rstrip("<>").isdigit()]
         return len(set(s)) >= 2 or any("!" in x for x in case.meta["sched"])
     def distinct_key(self, case, trace):
         return None
